@@ -55,7 +55,7 @@ def attrs(sk, *xs):
     want_ids = list(ids)
     want_shape = list(shape) if shape else None
     want_fmt = {}
-    if name.startswith("split") or name in ("truediv", "floordiv"):
+    if (name.startswith("split") and name != "split_flatten") or name in ("truediv", "floordiv"):
         x = ids[dd]
         want_ids[dd:dd + 1] = [x + ".1", x + ".0"]
         if want_shape:
@@ -98,6 +98,13 @@ def attrs(sk, *xs):
             want_shape[dd:dd + lv + 1] = [new]
         for i, rid in enumerate(ids):
             if rid not in merged:
+                want_fmt[rid] = fmts[i]
+    elif name == "split_flatten":
+        # X -> X.1, X.0 -> [X.1, X.0] with absolute coordinates: the flattened rank has X's shape again
+        x = ids[dd]
+        want_ids[dd] = [x + ".1", x + ".0"]
+        for i, rid in enumerate(ids):
+            if i != dd:
                 want_fmt[rid] = fmts[i]
     elif name == "flatten_unflatten":
         for i, rid in enumerate(ids):
@@ -234,7 +241,8 @@ def obligations(tier):
     obs = []
     xfl = [("splitUniform", {"step": 2}), ("splitUniform", {"step": 2, "depth": 1}), ("splitEqual", {"size": 1}), ("splitNonUniform", {"k": 2}),
            ("splitUnEqual", {"sizes": [1, 1]}), ("swapRanks", {}), ("flattenRanks", {}), ("flattenRanks", {"style": "pair"}), ("mergeRanks", {"style": "absolute"}),
-           ("mergeRanks", {"style": "relative"}), ("flatten_unflatten", {}), ("updateCoords_inc", {}), ("updatePayloads", {"depth": 1}), ("deepcopy", {})]
+           ("mergeRanks", {"style": "relative"}), ("flatten_unflatten", {}), ("updateCoords_inc", {}), ("updatePayloads", {"depth": 1}), ("deepcopy", {}),
+           ("split_flatten", {"step": 2}), ("split_flatten", {"step": 1})]
     if not q:
         xfl += [("splitUniform", {"step": 2, "rel": True}), ("splitUniform", {"step": 2, "pre": 1, "post": 1}), ("truediv", {"parts": 2}), ("floordiv", {"parts": 2}),
                 ("splitEqual", {"size": 2, "depth": 1})]
@@ -269,6 +277,10 @@ def obligations(tier):
     for perm in ([2, 0, 1], [1, 2, 0], [0, 2, 1]):
         obs.append(Ob("xf/box1x2x3/swizzle%s/CUC" % "".join(map(str, perm)), "attrs",
                       dict(tree=None, box=[1, 2, 3], xf="swizzleRanks", opt={"perm": perm}, depth=3, fmts=["C", "U", "C"], mutable=True, auth=True), names("v", 6), []))
+    # a permutation that leaves a suffix of the rank order in place: the untouched ranks keep their formats too
+    for fmts in (["C", "C", "U"], ["U", "C", "U"]):
+        obs.append(Ob("xf/box1x2x3/swizzle102/%s" % "".join(fmts), "attrs",
+                      dict(tree=None, box=[1, 2, 3], xf="swizzleRanks", opt={"perm": [1, 0, 2]}, depth=3, fmts=fmts, mutable=False, auth=True), names("v", 6), []))
     tree = [[1]]
     ps = names("x", tree_params(tree))
     tp, _, cn = tree_pre(tree, ps)
